@@ -31,6 +31,7 @@ type Obligation struct {
 	ModelVs []*Term
 	Sub     []*Obligation // case split / per-return split
 	Retried  bool
+	Brief    bool // listed as an open finding: short time limit, no second pass
 	OnlySubs bool         // the obligation is the conjunction of Sub; it is not tried as a whole: tried when the whole obligation is not proved quickly
 }
 
@@ -79,6 +80,9 @@ type FuncExec struct {
 	frames     map[*ssa.Function]*frameSpec
 	invDepth   int
 	inGlobalInv bool
+	inLemma     bool
+	noLemmas    bool
+	lemmaDone   map[int]bool
 	loopIter    map[*ssa.BasicBlock]*State
 	inlinedCons map[*Contract]bool
 	invSeen    map[int]bool
@@ -1009,12 +1013,14 @@ func (fx *FuncExec) backEdge(fn *ssa.Function, l *Loop, n *node, cond *Term, st 
 		return
 	}
 	where := ""
+	bodyPos := token.NoPos
 	if n != nil && n.blk != nil {
 		// the last positioned instruction before the jump back says which `continue` (or loop end) this is
 		for b := n.blk; b != nil && where == ""; {
 			for i := len(b.Instrs) - 1; i >= 0; i-- {
 				if p := b.Instrs[i].Pos(); p.IsValid() {
 					pos := fn.Prog.Fset.Position(p)
+					bodyPos = p
 					where = fmt.Sprintf(" [back edge after %s:%d]", shortFile(pos.Filename), pos.Line)
 					break
 				}
@@ -1068,8 +1074,13 @@ func (fx *FuncExec) backEdge(fn *ssa.Function, l *Loop, n *node, cond *Term, st 
 		}
 		fx.addObl("inv-preserve", fmt.Sprintf("loop%d:%s%s", l.ordinal, c.Label, site), c.Expr+where, cond, t)
 	}
+	// step clauses may name locals of the loop body: resolve names where the jump back happens
+	stepPos := l.pos
+	if bodyPos.IsValid() {
+		stepPos = bodyPos
+	}
 	for _, c := range l.spec.Steps {
-		t, err := fx.evalClause(c, &cenv{fx: fx, fn: fn, st: st, old: fx.entryFor(fn), con: con, body: true, binds: map[string]Value{}, loopPre: fx.loopPre[l.head], loopIter: fx.loopIter[l.head], pos: l.pos, loopHead: l.head})
+		t, err := fx.evalClause(c, &cenv{fx: fx, fn: fn, st: st, old: fx.entryFor(fn), con: con, body: true, binds: map[string]Value{}, loopPre: fx.loopPre[l.head], loopIter: fx.loopIter[l.head], pos: stepPos, loopHead: l.head})
 		if err != nil {
 			fx.addObl("shape", "step:"+c.Label, err.Error(), cond, fx.ts.False())
 			continue
